@@ -280,6 +280,43 @@ impl<'a> Rewriter<'a> {
         }})
     }
 
+    /// R2': `A.zip(B).try_fold(init, |acc, (x, y)| BODY)` with BODY: ControlFlow ⇒ loop over both iterators
+    /// (std: zip stops when either ends; try_fold stops at the first Break)
+    fn r2_zip_try_fold(&mut self, e: &ExprMethodCall) -> Option<Expr> {
+        if e.args.len() != 2 {
+            return None;
+        }
+        let c = match &e.args[1] { Expr::Closure(c) if c.inputs.len() == 2 => c, _ => return None };
+        let zip = match &*e.receiver { Expr::MethodCall(z) if z.method == "zip" && z.args.len() == 1 => z, _ => return None };
+        let a = &zip.receiver;
+        let b = &zip.args[0];
+        let n = self.fresh();
+        let acc = format_ident!("vx_accR{}", n);
+        let ita = format_ident!("vx_itR{}", n);
+        let itb = format_ident!("vx_itbR{}", n);
+        let init = &e.args[0];
+        let acc_pat = strip_pat_type(&c.inputs[0]);
+        let (px, py) = match strip_pat_type(&c.inputs[1]) { Pat::Tuple(t) if t.elems.len() == 2 => (t.elems[0].clone(), t.elems[1].clone()), _ => return None };
+        let body = closure_body_expr(c);
+        self.fired.push("R2'-zip-try_fold".into());
+        Some(parse_quote! {{
+            let mut #acc = ControlFlow::Continue(#init);
+            let mut #ita = #a;
+            let mut #itb = #b;
+            while let Some(#px) = #ita.next() {
+                match #itb.next() {
+                    Some(#py) => {
+                        let #acc_pat = match #acc { ControlFlow::Continue(vx_v) => vx_v, ControlFlow::Break(vx_v) => vx_v };
+                        #acc = #body;
+                        if let ControlFlow::Break(vx_unused) = &#acc { break; }
+                    }
+                    None => { break; }
+                }
+            }
+            #acc
+        }})
+    }
+
     /// R2: `E.fold(init, |acc, P| B)`
     fn r2_fold(&mut self, e: &ExprMethodCall) -> Option<Expr> {
         if e.args.len() != 2 {
@@ -434,6 +471,7 @@ impl<'a> VisitMut for Rewriter<'a> {
                     "for_each" => self.r1_for_each(m),
                     "try_for_each" => self.r1_try_for_each(m).map(|b| parse_quote! { (#b) }),
                     "fold" => self.r2_fold(m).map(|b| parse_quote! { (#b) }),
+                    "try_fold" => self.r2_zip_try_fold(m).map(|b| parse_quote! { (#b) }),
                     "collect" => self.r3_collect(m).map(|b| parse_quote! { (#b) }),
                     _ => None,
                 }
@@ -604,6 +642,29 @@ impl<'a> VisitMut for Rewriter<'a> {
                         if ok {
                             self.fired.push("R18-ref-struct-pattern".into());
                             b.stmts.extend(outs);
+                            replaced = true;
+                        }
+                    }
+                }
+            }
+            // R20: `let (A(x) | B(x)) = E;` ⇒ `let x = match E { A(x) => x, B(x) => x };`
+            if !replaced {
+                if let Stmt::Local(l) = &st {
+                    let mut p = &l.pat;
+                    if let Pat::Paren(pp) = p { p = &pp.pat; }
+                    if let (Pat::Or(or), Some(init)) = (p, &l.init) {
+                        struct Names(Vec<Ident>);
+                        impl<'ast> Visit<'ast> for Names {
+                            fn visit_pat_ident(&mut self, p: &'ast PatIdent) { self.0.push(p.ident.clone()); }
+                        }
+                        let mut all: Vec<Vec<Ident>> = vec![];
+                        for c in or.cases.iter() { let mut n = Names(vec![]); n.visit_pat(c); all.push(n.0); }
+                        if all.iter().all(|v| v.len() == 1 && v[0] == all[0][0]) {
+                            let x = &all[0][0];
+                            let cases = or.cases.iter();
+                            let ex = &init.expr;
+                            b.stmts.push(parse_quote! { let #x = match #ex { #(#cases => #x),* }; });
+                            self.fired.push("R20-or-pattern-let".into());
                             replaced = true;
                         }
                     }
@@ -791,7 +852,7 @@ impl Marker {
                     if let Some(i) = p.path.get_ident() {
                         let s = i.to_string();
                         if let Some(r) = s.strip_prefix("vx_itR") {
-                            for pre in ["vx_it", "vx_c", "vx_acc", "vx_res"] {
+                            for pre in ["vx_it", "vx_itb", "vx_c", "vx_acc", "vx_res"] {
                                 self.renames.insert(format!("{}R{}", pre, r), format!("{}{}", pre, k));
                             }
                         }
